@@ -7,13 +7,13 @@ package main
 import (
 	"bytes"
 	"fmt"
-	"os"
-	"regexp"
 	"go/ast"
 	"go/constant"
 	"go/printer"
 	"go/token"
 	"go/types"
+	"os"
+	"regexp"
 	"sort"
 	"strings"
 
@@ -56,51 +56,51 @@ type partialHavoc struct {
 
 type loopInfo struct {
 	modCallees map[*ssa.Function]bool
-	autoPhis []autoInv
-	head    *ssa.BasicBlock
-	ordinal int
-	body    map[*ssa.BasicBlock]bool
-	writes  map[string]bool
-	havocAll bool
+	autoPhis   []autoInv
+	head       *ssa.BasicBlock
+	ordinal    int
+	body       map[*ssa.BasicBlock]bool
+	writes     map[string]bool
+	havocAll   bool
 }
 
 type Exec struct {
-	vc     *VC
-	fn     *ssa.Function
-	prop   string
-	vals   map[ssa.Value]*Val
-	out    map[*ssa.BasicBlock]*blockState
-	edgeG  map[[2]int]string // (pred index, succ index, occurrence) -> guard
-	loops  map[*ssa.BasicBlock]*loopInfo
-	inLoops map[*ssa.BasicBlock][]*loopInfo
-	pass   int
-	entry  *Heap
-	params map[string]TV
-	entryGhosts map[string]TV
-	callOrd map[string]int
-	callIdxOf map[ssa.Instruction]int // ordinal of call per callee name in source order
-	preLoops map[*ssa.BasicBlock]*loopInfo
-	deferred []deferredCall
-	deferGuard map[*ssa.Defer]string
-	partialHavocs []partialHavoc
-	propRe *regexp.Regexp
-	subErrSites []string
-	mapStoreOrd map[*ssa.MapUpdate]int
-	tiDone map[string]bool
-	tiRelevant map[int]bool
-	privAllocs map[*ssa.Alloc]bool
-	roCells map[*ssa.Alloc]ssa.Value
-	roStored map[*ssa.Alloc]bool
-	frameActive bool
-	frameLocs []modLoc
-	nopanic bool
-	nonil   bool
-	nilsweep bool // panic.nil obligations for dereferences of call results / map lookups / comma-ok results
-	hasDefer bool
+	vc               *VC
+	fn               *ssa.Function
+	prop             string
+	vals             map[ssa.Value]*Val
+	out              map[*ssa.BasicBlock]*blockState
+	edgeG            map[[2]int]string // (pred index, succ index, occurrence) -> guard
+	loops            map[*ssa.BasicBlock]*loopInfo
+	inLoops          map[*ssa.BasicBlock][]*loopInfo
+	pass             int
+	entry            *Heap
+	params           map[string]TV
+	entryGhosts      map[string]TV
+	callOrd          map[string]int
+	callIdxOf        map[ssa.Instruction]int // ordinal of call per callee name in source order
+	preLoops         map[*ssa.BasicBlock]*loopInfo
+	deferred         []deferredCall
+	deferGuard       map[*ssa.Defer]string
+	partialHavocs    []partialHavoc
+	propRe           *regexp.Regexp
+	subErrSites      []string
+	mapStoreOrd      map[*ssa.MapUpdate]int
+	tiDone           map[string]bool
+	tiRelevant       map[int]bool
+	privAllocs       map[*ssa.Alloc]bool
+	roCells          map[*ssa.Alloc]ssa.Value
+	roStored         map[*ssa.Alloc]bool
+	frameActive      bool
+	frameLocs        []modLoc
+	nopanic          bool
+	nonil            bool
+	nilsweep         bool // panic.nil obligations for dereferences of call results / map lookups / comma-ok results
+	hasDefer         bool
 	abstractedGuards []string
-	cur    *blockState
-	curBlk *ssa.BasicBlock
-	rets []retInfo
+	cur              *blockState
+	curBlk           *ssa.BasicBlock
+	rets             []retInfo
 }
 
 // ---------- naming helpers ------------------------------------------------
@@ -612,7 +612,7 @@ func isBinExpr(n ast.Node) bool {
 	return false
 }
 func isCallExpr(n ast.Node) bool { _, ok := n.(*ast.CallExpr); return ok }
-func isStmt(n ast.Node) bool    { _, ok := n.(ast.Stmt); return ok }
+func isStmt(n ast.Node) bool     { _, ok := n.(ast.Stmt); return ok }
 
 func (ex *Exec) place(v ssa.Value) *Place {
 	r := ex.val(v)
@@ -2346,10 +2346,10 @@ func (ex *Exec) resultNames() []string {
 
 type retInfo struct {
 	ghosts map[string]TV
-	guard string
-	heap  *Heap
-	vals  []*Val
-	pos   token.Pos
+	guard  string
+	heap   *Heap
+	vals   []*Val
+	pos    token.Pos
 }
 
 func (ex *Exec) ret(r *ssa.Return) {
